@@ -81,3 +81,29 @@ H("c13_quote_symbol", "c_scalar::c13_quote_symbol", ["C13"], ["generator::utils:
 # loop) at every level even though it is assumed away: out of memory at 12 GB with unwind 3.
 H("c06_luau_number", "c_scalar::c06_luau_number", ["C06", "C07"], ["convert_luau_number::Processor::process_number_expression", "HexNumber::compute_value", "BinaryNumber::compute_value"],
   "any u64 binary literal, either prefix case", mode="lean", timeout_s=600, replay="luau_number")
+
+# ---------------------------------------------------------------------------------------- C08 node steps
+NATIVE_NOTE = "native replay runs the real unstubbed Evaluator::evaluate on the smallest real expression realising the solver's child answers"
+EVAL_STUB = "Evaluator::evaluate -> induction hypothesis: the exact value of the child, or Unknown (solver's choice)"
+SE_STUB = "Evaluator::has_side_effects -> induction hypothesis: true whenever executing the child can call out (solver's choice otherwise)"
+NUMCO_STUB = "LuaValue::number_coercion -> identity (operand domain has no strings; the string arm runs dec2flt)"
+STRCO_STUB = "LuaValue::string_coercion -> a number becomes an opaque string (flt2dec digits are outside the claim)"
+NATIVE_NOTE_ = "native replay runs the real unstubbed Evaluator::evaluate on the smallest real expression realising the solver's child answers"
+BIN_FNS = ["Evaluator::evaluate_binary", "Evaluator::evaluate_math", "Evaluator::evaluate_relational", "Evaluator::evaluate_equal",
+           "LuaValue::map_if_truthy", "LuaValue::map_if_truthy_else", "LuaValue::is_truthy"]
+BIN_ASSUME = ["string operands excluded (Kani 0.68 mis-models LuaValue::String payloads; coercions run dec2flt/flt2dec)", NATIVE_NOTE]
+H("c08_ev_binary_logic", "c08_steps::c08_ev_binary_logic", ["C08", "C01"], BIN_FNS,
+  "and, or, ==, ~=, <, <=, >, >=, .. x two children, each nil/false/true/any f64 (all bit patterns)/table/function, exactly known or Unknown; both evaluator configurations; one node (deeper trees by structural induction)",
+  mode="lean", timeout_s=900, mem_gb=16, replay="ev_binary_logic", stubs=[EVAL_STUB, NUMCO_STUB, STRCO_STUB], assumptions=BIN_ASSUME)
+H("c08_ev_binary_addsub", "c08_steps::c08_ev_binary_addsub", ["C08", "C01"], BIN_FNS,
+  "+ and - x two children over all f64 bit patterns (and the non-number kinds), known or Unknown",
+  tier="thorough", mode="lean", timeout_s=1500, mem_gb=16, replay="ev_binary_addsub", stubs=[EVAL_STUB, NUMCO_STUB, STRCO_STUB], assumptions=BIN_ASSUME)
+H("c08_ev_binary_arith", "c08_steps::c08_ev_binary_arith", ["C08", "C01"], BIN_FNS,
+  "+ - * / // % ^ x two children whose number values range over a table of 24 boundary doubles (0, -0, +-1, +-2, +-3, +-0.5, 0.1, +-7, +-1e308, 5e-324, +-inf, NaN, 2^53, 2^53+2, +-1.5, 10) and the non-number kinds, known or Unknown",
+  mode="lean", timeout_s=900, mem_gb=16, replay="ev_binary_arith", stubs=[EVAL_STUB, NUMCO_STUB, STRCO_STUB],
+  assumptions=BIN_ASSUME + ["number operands outside the 24-value table are outside the claim for * / // % (bit-blasted equivalence of two dividers/multipliers over all of f64 did not finish in 20 min)",
+                            "`^`: only the kind of the result is checked (no model of pow)",
+                            "`%`: value checked on integer-valued operands up to 2^26 where Lua 5.1 and Luau agree exactly"])
+H("c08_ev_unary", "c08_steps::c08_ev_unary", ["C08", "C01"], ["Evaluator::evaluate_unary", "LuaValue::length", "LuaValue::is_truthy"],
+  "3 operators x child nil/false/true/any f64/string (kind)/table/function, known or Unknown", mode="lean", timeout_s=900,
+  replay="ev_unary", stubs=[EVAL_STUB, NUMCO_STUB], assumptions=["unary minus on strings excluded (dec2flt)", NATIVE_NOTE])
